@@ -932,3 +932,87 @@ def run_up(script, seed):
                     pass
             else:
                 setattr(ES.Socket, n, v)
+
+
+def replay_up_schedule(sched, seed=0):
+    """spec -> code at L2 for the upgrade: drive the real threaded Server under a schedule
+    generated by TLC from EioQueueFineUpSim (entries [p, k]: p = 0 the client with k = probe /
+    bad1 / upgrade / bad2 / gone; k = kind starts task p; k = "" steps it)."""
+    import engineio.socket as ES
+    saved = {n: ES.Socket.__dict__.get(n) for n in ('upgrading', 'upgraded')}
+    ES.Socket.upgrading = _Flag('upgrading')
+    ES.Socket.upgraded = _Flag('upgraded')
+    w = W.make_world('sync', {'ping_interval': 4000, 'ping_timeout': 2000, 'monitor': False},
+                     seed=seed, preempt=False)
+    try:
+        hub = w.hub
+        hub.no_start_yield = True
+        hub.log_wswait = True
+        hub.log_flags = True
+        hub.child_proc = {(1, 'writer'): 2}
+        w.connect_plan = [('accept', False)]
+        w.http('GET', 'transport=polling&EIO=4')
+        w.quiesce()
+        sid, so = w.sids[1], w.socks[1]
+        qs = 'transport=polling&EIO=4&sid=' + sid
+        hub.primlog = []
+        hub.scripted = so.queue
+        hub.script_skip = ()
+        hub.script_kinds = ('wswait', 'flag')
+        tasks = {}
+        conn = None
+        for n, ent in enumerate(sched):
+            p, k = ent['p'], ent['k']
+            if p == 0:
+                if conn is None:
+                    raise RuntimeError('client frame before the upgrade request (entry %d)' % n)
+                if k == 'gone':
+                    w.ws_drop_conn(conn)
+                else:
+                    w.ws_frame_conn(conn, {'probe': '2probe', 'upgrade': '5'}.get(k, '4x'))
+                continue
+            if k:
+                if k == 'upg':
+                    rid = w.ws_request('transport=websocket&EIO=4&sid=' + sid, slot=1)
+                    conn = w.reqs[rid].conn
+                    t = w.reqs[rid].task
+                elif k == 'poll':
+                    t = w.reqs[w.http('GET', qs, slot=1)].task
+                elif k == 'send':
+                    t = w.reqs[w.app_send(1)]['task']
+                else:
+                    raise ValueError(k)
+                t.proc = p
+                tasks[p] = t
+                continue
+            if p == 2 and 2 not in tasks:
+                wt = [t for t in hub.tasks if getattr(t, 'proc', None) == 2]
+                if not wt:
+                    raise RuntimeError('the writer thread does not exist at schedule entry %d' % n)
+                tasks[2] = wt[0]
+            try:
+                hub.step(tasks[p])
+            except RuntimeError as e:
+                raise RuntimeError('%s at schedule entry %d; log so far: %r' % (
+                    e, n, [(x['t'], x['op'], x.get('item') if isinstance(x.get('item'), str) else '')
+                           for x in hub.primlog][-8:]))
+        hub.scripted = None
+        hub.primlog = None
+        snap = w.snapshot(1)
+        dl = snap['deliv'][0]
+        return {'q': snap['ss'][0]['q'], 'unf': snap['ss'][0]['unf'],
+                'upgrading': bool(so.upgrading), 'upgraded': bool(so.upgraded),
+                'pdeliv': [d[0] for d in dl if d[1] != 'ws'],
+                'wdeliv': [d[0] for d in dl if d[1] == 'ws'],
+                'sent': len(w.accepted.get(1, [])),
+                'done': {p: bool(t.done) for p, t in tasks.items()}}
+    finally:
+        w.close()
+        for n, v in saved.items():
+            if v is None:
+                try:
+                    delattr(ES.Socket, n)
+                except AttributeError:
+                    pass
+            else:
+                setattr(ES.Socket, n, v)
